@@ -469,3 +469,224 @@ theorem sack_sound {s : SackSt} {pkt : Bytes} {t : Nat} {a : Bytes} {d : Bool} {
   · simp at h
 
 end TRV.Proofs
+
+namespace TRV.Proofs
+open TRV TRV.Wire TRV.Drv TRV.Spec
+
+theorem parse_v4_nibble {buf : Bytes} {h4 : IP4} {l4 : L4} (h : parse buf = some (.v4 h4, l4)) :
+    ∃ b0, u8 buf 0 = some b0 ∧ b0 / 16 = 4 := by
+  unfold parse at h
+  split at h; · simp at h
+  rename_i b0 hb0
+  split at h
+  · rename_i hv4; exact ⟨b0, hb0, hv4⟩
+  · split at h
+    · split at h; · simp at h
+      rename_i hd' _
+      split at h; · simp at h
+      split at h
+      · cases ht : tcp hd'.payload <;> simp [ht] at h
+      · split at h
+        · cases hi : icmp6 hd'.payload <;> simp [hi] at h
+        · simp at h
+    · simp at h
+
+/-- quoted ICMPv6 echo: `extractEcho6` on a window of the packet -/
+theorem extractEcho6_spec {pl buf : Bytes} {k id seq : Nat} (hw : Window pl buf k)
+    (h : extractEcho6 pl = some (id, seq)) (hseq : seq ≠ 0) :
+    ∃ ety, u8 buf k = some ety ∧ (ety = 128 ∨ ety = 129) ∧ u16 buf (k + 4) = some id ∧ u16 buf (k + 6) = some seq := by
+  unfold extractEcho6 at h
+  split at h; · simp at h
+  rename_i j hj
+  obtain ⟨h1, _, hpl, _⟩ := icmp6_spec hj
+  split at h
+  · simp at h; omega
+  · split at h
+    · rename_i hty
+      split at h
+      · rename_i a b ha hb
+        simp only [Option.some.injEq, Prod.mk.injEq] at h
+        obtain ⟨rfl, rfl⟩ := h
+        have hwj : Window j.payload buf (k + 4) := by
+          rw [hpl]; exact (Window.drop pl 4).trans hw
+        have e1 := hw.u8 h1
+        have e2 := hwj.u16 ha
+        have e3 := hwj.u16 hb
+        simp only [Nat.add_zero] at e1 e2
+        exact ⟨j.type, e1, hty, e2, by simpa [Nat.add_assoc] using e3⟩
+      · simp at h
+    · simp at h
+
+/-- ICMP over IPv6 (partial: the quoted IPv6 header carries no hop-by-hop header, which no probe
+    of this tool has): every accepted outcome is genuine on the bytes the driver read -/
+theorem icmp6_sound_partial {s : IcmpSt} {pkt : Bytes} {t : Nat} {a : Bytes} {d : Bool} {tm : Nat}
+    (hmin : 1 ≤ s.cfg.min)
+    (h : icmpRecv s pkt = .accept t a d tm) (hv6 : ∃ b0, u8 (pkt.take bufSize) 0 = some b0 ∧ b0 / 16 = 6)
+    (hnoq : ∀ k, u8 (pkt.take bufSize) (k + 8 + 6) ≠ some 0 ∨ d = true) :
+    genuineIcmp6 s.cfg s.sent t a d (pkt.take bufSize) = true ∧ ∃ p ∈ s.sent, p.ttl = t ∧ p.time = tm := by
+  unfold icmpRecv at h
+  split at h; · simp at h
+  split at h; · simp at h
+  rename_i l3 l4 hparse
+  split at h
+  · -- ICMPv4 layer: impossible for a version-6 first nibble
+    exfalso
+    obtain ⟨hd, c0, _, hc0, hc4, _⟩ := parse_icmp4 hparse
+    obtain ⟨b0, hb0, hver⟩ := hv6
+    rw [hb0] at hc0; cases hc0; omega
+  · rename_i i
+    obtain ⟨hd, b0, rfl, hb0, hver, hip, hup, hic⟩ := parse_icmp6 hparse
+    split at h
+    · -- time exceeded
+      rename_i hty
+      split at h; · simp at h
+      rename_i info hinfo
+      split at h; · simp at h
+      split at h; · simp at h
+      rename_i hqd hqs
+      split at h; · simp at h
+      rename_i id seq hecho
+      split at h; · simp at h
+      rename_i hid
+      split at h; · simp at h
+      rename_i p hlk
+      simp only [Out.accept.injEq] at h
+      obtain ⟨rfl, rfl, rfl, rfl⟩ := h
+      obtain ⟨_, hmn, hmx, hsent, hpm, hpt⟩ := icmpLookup_spec hlk
+      refine ⟨?_, p, hpm, hpt, rfl⟩
+      obtain ⟨k, hview, hwo⟩ := view6_of_ip6 hip ⟨b0, hb0, hver⟩ hup hic (by omega)
+      have hnz : u8 (pkt.take bufSize) (k + 8 + 6) ≠ some 0 := by
+        rcases hnoq k with h1 | h1
+        · exact h1
+        · simp at h1
+      obtain ⟨qnh, qplen, hquote, hwq, _⟩ := quote6_of_parse hwo hic hinfo hnz
+      obtain ⟨ety, e1, hety, e2, e3⟩ := extractEcho6_spec hwq hecho (by omega)
+      simp only [Classical.not_not] at hqd hqs hid
+      simp only [genuineIcmp6, hview, hquote, e1, e2, e3, Bool.false_eq_true, if_false, L3.src]
+      simp only [Bool.and_eq_true, Bool.or_eq_true, decide_eq_true_eq, hty, hqd, hqs, hid, hsent, hmn, hmx,
+        and_true, true_and]
+      exact hety
+    · split at h
+      · -- echo reply
+        rename_i hty
+        split at h
+        · rename_i id seq h1 h2
+          split at h; · simp at h
+          split at h; · simp at h
+          rename_i hid hsrc
+          split at h; · simp at h
+          rename_i p hlk
+          simp only [Out.accept.injEq] at h
+          obtain ⟨rfl, rfl, rfl, rfl⟩ := h
+          obtain ⟨_, hmn, hmx, hsent, hpm, hpt⟩ := icmpLookup_spec hlk
+          refine ⟨?_, p, hpm, hpt, rfl⟩
+          obtain ⟨k, hview, hwo⟩ := view6_of_ip6 hip ⟨b0, hb0, hver⟩ hup hic (by omega)
+          obtain ⟨ht, _, hpl, _⟩ := icmp6_spec hic
+          have hwi : Window i.payload (pkt.take bufSize) (k + 4) := by
+            rw [hpl]; exact (Window.drop hd.payload 4).trans hwo
+          have e0 := hwo.u8 ht
+          have e1 := hwi.u16 h1
+          have e2 := hwi.u16 h2
+          simp only [Nat.add_zero] at e0 e1
+          simp only [Classical.not_not] at hid hsrc
+          simp only [L3.src] at hsrc
+          simp only [genuineIcmp6, hview, if_true, e0, e1, L3.src]
+          have e2' : u16 (pkt.take bufSize) (k + 6) = some seq := by simpa [Nat.add_assoc] using e2
+          simp only [e2']
+          simp only [Bool.and_eq_true, decide_eq_true_eq, hty, hid, hsrc, hsent, hmn, hmx, and_true, true_and]
+        · simp at h
+      · simp at h
+  · simp at h
+
+end TRV.Proofs
+
+namespace TRV.Proofs
+open TRV TRV.Wire TRV.Drv TRV.Spec
+
+/-- UDP over IPv6: every accepted outcome is genuine on the bytes the driver read (a quoted
+    hop-by-hop header is impossible here: the identifier is only taken when the quoted next header
+    is UDP) -/
+theorem udp6_sound {s : UdpSt} {pkt : Bytes} {t : Nat} {a : Bytes} {d : Bool} {tm : Nat}
+    (hinv : UdpInv s) (h6 : s.cfg.target.length ≠ 4)
+    (h : udpRecv s pkt = .accept t a d tm) (hv6 : ∃ b0, u8 (pkt.take bufSize) 0 = some b0 ∧ b0 / 16 = 6) :
+    genuineUdp6 s.cfg s.sent t a d (pkt.take bufSize) = true ∧ ∃ p ∈ s.sent, p.ttl = t ∧ p.time = tm := by
+  unfold udpRecv at h
+  split at h; · simp at h
+  split at h; · simp at h
+  rename_i l3 l4 hparse
+  simp only at h
+  split at h; · simp at h
+  · simp at h
+  rename_i info hinfo
+  split at h; · simp at h
+  rename_i sp dp hports
+  split at h; · simp at h
+  rename_i hdst
+  split at h; · simp at h
+  rename_i hsrc
+  split at h; · simp at h
+  rename_i p hfind
+  simp only [Out.accept.injEq] at h
+  obtain ⟨rfl, rfl, rfl, rfl⟩ := h
+  have hpm := List.mem_of_find?_eq_some hfind
+  have hpid : p.id = info.wrappedId := by
+    have := List.find?_some hfind; simpa using this
+  refine ⟨?_, p, hpm, rfl, rfl⟩
+  cases l4 with
+  | tcp t' => simp at hinfo
+  | icmp4 i =>
+    exfalso
+    obtain ⟨_, c0, _, hc0, hc4, _⟩ := parse_icmp4 hparse
+    obtain ⟨b0, hb0, hver⟩ := hv6
+    rw [hb0] at hc0; cases hc0; omega
+  | icmp6 i =>
+    obtain ⟨hd, b0, rfl, hb0, hver, hip, hup, hic⟩ := parse_icmp6 hparse
+    simp only at hinfo
+    split at hinfo
+    · rename_i htype
+      simp only [Option.some.injEq] at hinfo
+      have hty58 : i.type ≠ 58 := by rcases htype with ⟨h1, _⟩ | h1 <;> omega
+      obtain ⟨k, hview, hwo⟩ := view6_of_ip6 hip ⟨b0, hb0, hver⟩ hup hic hty58
+      have hid := hinv p hpm
+      simp only [udpId, h6, if_false, Build.udp6Id] at hid
+      -- the quoted next header cannot be hop-by-hop: the identifier would be 0, but ids are ≥ 13
+      have hnz : u8 (pkt.take bufSize) (k + 8 + 6) ≠ some 0 := by
+        intro hz
+        unfold icmpInfo6 at hinfo
+        split at hinfo; · simp at hinfo
+        split at hinfo; · simp at hinfo
+        cases hq : ip6 (i.payload.drop 4) with
+        | none => simp [hq] at hinfo
+        | some q =>
+          simp [hq] at hinfo
+          obtain ⟨_, hnh, _, _, _, _⟩ := ip6_spec hq
+          obtain ⟨_, _, hpl, _⟩ := icmp6_spec hic
+          have hwq0 : Window (i.payload.drop 4) (pkt.take bufSize) (k + 8) := by
+            rw [hpl]
+            have := ((Window.drop (hd.payload.drop 4) 4).trans (Window.drop hd.payload 4)).trans hwo
+            simpa [Nat.add_assoc] using this
+          have e5 := hwq0.u8 hnh
+          rw [hz] at e5
+          simp only [Option.some.injEq] at e5
+          have : info.wrappedId = 0 := by rw [← hinfo]; simp [← e5]
+          omega
+      obtain ⟨qnh, qplen, hquote, hwq, hwid⟩ := quote6_of_parse hwo hic hinfo hnz
+      obtain ⟨hpa, _⟩ := quotedPorts_spec hwq hports
+      have hdst' : info.qdst = s.cfg.target ∧ dp = s.cfg.tport := by simpa using hdst
+      have hsrc' := loosen_or hsrc
+      have hq17 : qnh = 17 ∧ qplen = 13 + p.ttl := by
+        by_cases h17 : qnh = 17
+        · simp [h17] at hwid; exact ⟨h17, by omega⟩
+        · simp [h17] at hwid; omega
+      have hany : s.sent.any (fun x => decide (x.ttl = p.ttl) && decide (x.id = qplen)) = true := by
+        rw [List.any_eq_true]; exact ⟨p, hpm, by simp [hpid, hwid, hq17.1]⟩
+      simp only [genuineUdp6, hview, hquote, hpa, L3.src]
+      simp only [Bool.and_eq_true, Bool.or_eq_true, decide_eq_true_eq, hdst'.1, hdst'.2, hq17.1, hany,
+        and_true, true_and, beq_self_eq_true]
+      refine ⟨⟨?_, hsrc'⟩, hq17.2⟩
+      rcases htype with ⟨h1, h2⟩ | h3
+      · exact Or.inl ⟨h1, h2⟩
+      · exact Or.inr h3
+    · simp at hinfo
+
+end TRV.Proofs
